@@ -307,6 +307,9 @@ def working_precision(ctx, run):
 
 
 def check(ctx, run):  # noqa: F811
+    # R1h: both branches read the current paths - nothing computed from an earlier simulation survives a new one (call histories)
+    from ..registry import resimulation_rule
+    resimulation_rule(ctx, run, "C03.R1h", only=("resim-state",))
     _check_core(ctx, run)
     containers(ctx, run)
     feature_shapes(ctx, run)
